@@ -496,6 +496,8 @@ func ruleContainers(c *Ctx) {
 	seenHolder := map[string]bool{}
 	for _, h := range holders {
 		seenHolder[h.typ] = true
+	}
+	for _, h := range holders {
 		n := c.namedType(h.typ)
 		if n == nil {
 			continue
@@ -503,6 +505,27 @@ func ruleContainers(c *Ctx) {
 		c.saw(c.funcName(h.fd))
 		hp := c.paramOfType(h.fd, h.typ)
 		positions := c.typePositions(n, elementTypes)
+		// an element type without an expander of its own (its expander was inlined into the holder's): the holder
+		// is then answerable for the positions below that element
+		for _, et := range []string{"Operation", "PathItem"} {
+			if seenHolder[et] || et == h.typ {
+				continue
+			}
+			en := c.namedType(et)
+			if en == nil {
+				continue
+			}
+			sub := c.typePositions(en, elementTypes)
+			for p, t := range positions {
+				if t != et {
+					continue
+				}
+				delete(positions, p)
+				for sp, st := range sub {
+					positions[joinPath(p, sp)] = st
+				}
+			}
+		}
 		covered := c.holderCoverage(fam, h.fd, hp, h.typ, 0)
 		for _, p := range sortedKeys(positions) {
 			why, has := covered[p]
@@ -519,7 +542,9 @@ func ruleContainers(c *Ctx) {
 	}
 	for _, t := range []string{"Swagger", "PathItem", "Operation"} {
 		if !seenHolder[t] {
-			c.ob(rule, t+":<holder-function>", token.NoPos, false, "no expander takes a *"+t)
+			// acceptable when the holder above it covers the positions below this type itself (checked above)
+			above := map[string]string{"Operation": "PathItem", "PathItem": "Swagger"}[t]
+			c.ob(rule, t+":<holder-function>", token.NoPos, above != "" && seenHolder[above], "no expander takes a *"+t)
 		}
 	}
 
